@@ -115,7 +115,7 @@ func Print(v reflect.Value) string {
 		if m.FieldByName("keys").Len() == 0 {
 			return "()"
 		}
-		return "(" + Print(m.FieldByName("keys")) + "|" + Print(m.FieldByName("values")) + ")"
+		return "(" + printList(m.FieldByName("keys")) + "|" + printList(m.FieldByName("values")) + ")"
 	}
 	switch t.Kind() {
 	case reflect.Uint8, reflect.Uint16, reflect.Uint32, reflect.Uint64, reflect.Uint:
@@ -170,6 +170,16 @@ func Print(v reflect.Value) string {
 		return "(" + strings.Join(parts, "|") + ")"
 	}
 	return ":?" + t.Kind().String()
+}
+
+// printList dumps a slice element by element (also for byte-kinded element types, which Print would dump as `x…`)
+func printList(v reflect.Value) string {
+	v = access(v)
+	parts := make([]string, v.Len())
+	for i := range parts {
+		parts[i] = Print(v.Index(i))
+	}
+	return "(" + strings.Join(parts, "|") + ")"
 }
 
 // PrintNamed dumps a value like Print, except that the fields of the structs the reflection codec walks (descriptor
@@ -426,8 +436,8 @@ func fill(e *sexp, v reflect.Value) error {
 		v.Set(p)
 		return nil
 	case reflect.Array, reflect.Slice:
-		if t.Elem().Kind() == reflect.Uint8 {
-			if e.isLst || !strings.HasPrefix(e.atom, "x") {
+		if t.Elem().Kind() == reflect.Uint8 && !e.isLst {
+			if !strings.HasPrefix(e.atom, "x") {
 				return bad()
 			}
 			b, err := hex.DecodeString(e.atom[1:])
